@@ -10,6 +10,7 @@
 
 #include <boost/range/iterator_range.hpp>
 #include <unordered_map>
+#include <unordered_set>
 
 namespace crab {
 namespace analyzer {
@@ -38,6 +39,8 @@ private:
   using liveness_map_t = std::unordered_map<basic_block_label_t, binding_t>;
   
   liveness_map_t m_liveness_map;
+  // blocks that contain an unreachable statement
+  std::unordered_set<basic_block_label_t> m_unreachable_blocks;
 public:
   liveness_analysis_operations(CFG cfg) : parent_type(cfg) {}
 
@@ -65,8 +68,13 @@ public:
       varset_domain_t kill, gen;
       for (auto &s : boost::make_iterator_range(b.rbegin(), b.rend())) {
 	if (s.is_unreachable()) {
+	  // Nothing after an unreachable statement is executed, but the
+	  // statements in front of it are: forget what has been
+	  // collected so far and keep scanning.
 	  is_unreachable_block = true;
-	  break;
+	  kill = varset_domain_t::bottom();
+	  gen = varset_domain_t::bottom();
+	  continue;
 	} 
         auto const &live = s.get_live();
         for (auto d :
@@ -79,8 +87,9 @@ public:
           gen += u;
         }
       } // end for
-      if (!is_unreachable_block) {
-	m_liveness_map.insert(std::make_pair(b.label(), binding_t(kill, gen)));
+      m_liveness_map.insert(std::make_pair(b.label(), binding_t(kill, gen)));
+      if (is_unreachable_block) {
+	m_unreachable_blocks.insert(b.label());
       }
     } // end for
   }
@@ -88,13 +97,16 @@ public:
   virtual varset_domain_t analyze(const basic_block_label_t &bb_id,
                                   varset_domain_t in) override {
     auto it = m_liveness_map.find(bb_id);
-    if (it != m_liveness_map.end()) {
+    if (it == m_liveness_map.end()) {
+      in = varset_domain_t::bottom(); // empty set (i.e., no live variables)
+    } else if (m_unreachable_blocks.count(bb_id) > 0) {
+      // the end of bb_id is unreachable: only the variables used
+      // before the unreachable statement are live
+      in = it->second.second;
+    } else {
       in -= it->second.first;
       in += it->second.second;
-    } else {
-      // bb_id is unreachable
-      in = varset_domain_t::bottom(); // empty set (i.e., no live variables)
-    } 
+    }
     return in;
   }
 
